@@ -10,6 +10,7 @@ package main
 
 import (
 	"go/token"
+	"strings"
 
 	"golang.org/x/tools/go/ssa"
 )
@@ -214,3 +215,45 @@ func c10Candidates(c *Ctx) {
 }
 
 func isIntSlice(t interface{ String() string }) bool { return t.String() == "[]int" }
+
+// c10SearchBoth: buildChains returns only after BOTH pools have been searched for parents — every return is preceded
+// by the roots lookup and by the intermediates lookup. The extended-key-usage filter in Verify works on the set of all
+// chains, so stopping at the first chain that ends in a root loses chains through intermediates that would pass it.
+func c10SearchBoth(c *Ctx) {
+	rule := "G-C10-candidates"
+	f := c.Fn("x509", "(*Certificate).buildChains")
+	if f == nil {
+		c.Missing(rule, "x509.(*Certificate).buildChains", "method", "not found")
+		return
+	}
+	be := newBigEnv(f, allParamNames(f))
+	for _, pool := range []string{"Roots", "Intermediates"} {
+		var look *ssa.Call
+		for _, ci := range allCalls(f) {
+			call, ok := ci.(*ssa.Call)
+			if !ok || !calleeNamed(call, "findVerifiedParents") || len(call.Call.Args) == 0 {
+				continue
+			}
+			if strings.Contains(be.plain(call.Call.Args[0], call).String(), "field:"+pool+"(opts)") || strings.HasSuffix(be.plain(call.Call.Args[0], call).String(), "opts."+pool) {
+				look = call
+			}
+		}
+		if look == nil {
+			c.Undecided(rule, fname(f), "the "+pool+" pool is searched before every return", "no findVerifiedParents call on opts."+pool+" found in buildChains (the search is organised differently)", f.Pos())
+			continue
+		}
+		cut := map[edge]bool{}
+		for _, p := range look.Block().Preds {
+			cut[edge{p, look.Block()}] = true
+		}
+		bad := token.NoPos
+		if look.Block() != f.Blocks[0] {
+			for b := range reach([]*ssa.BasicBlock{f.Blocks[0]}, cut) {
+				if ret, isRet := b.Instrs[len(b.Instrs)-1].(*ssa.Return); isRet {
+					bad = ret.Pos()
+				}
+			}
+		}
+		c.Check(bad == token.NoPos, rule, fname(f), "the "+pool+" pool is searched before every return", "", "buildChains can return without having looked for parents in opts."+pool+": chains through that pool are never found, so a certificate with a valid chain there (for instance one that satisfies the requested key usage) is rejected", bad)
+	}
+}
